@@ -38,7 +38,11 @@ Definition R (m : option nat) : gop := Reopen m.
 
 Inductive case :=
 | CSeq (c : cfg) (ops : list gop)
-| CTree (c : cfg) (keys : nat) (durs : list dy) (reopens : list (option nat)) (prefix : list gop) (depth : nat).
+| CTree (c : cfg) (keys : nat) (durs : list dy) (reopens : list (option nat)) (prefix : list gop) (depth : nat)
+(* two clients a and b operate concurrently on one cache (after a sequential setup); the observation is the set
+   of outcomes "outputs of a|outputs of b|final probe" over ALL schedules of the two clients, where every call
+   on the cache's dict/list/lock is one scheduling step (harness: step scheduler over two threads) *)
+| CConc (c : cfg) (keys : nat) (setup a b : list gop).
 
 Definition conv (o : op dy) : op float :=
   match o with
@@ -168,24 +172,90 @@ Section Drive.
     | CTree _ keys durs reopens prefix depth =>
         let (st, x) := prefix_outs keys (m_init mc) prefix in
         x ++ explore keys durs reopens depth (length prefix) st
+    | CConc _ _ _ _ _ => []
     end.
+
+  (* one atomic interleaving: operations tagged with their client (true = a) *)
+  Fixpoint run_tagged (st : St) (m : list (bool * gop)) (oa ob : str) : St * str * str :=
+    match m with
+    | [] => (st, rev oa, rev ob)
+    | (who, o) :: t =>
+        let (st', r) := step st o in
+        if who then run_tagged st' t (enc r :: oa) ob else run_tagged st' t oa (enc r :: ob)
+    end.
+  Definition outcome (keys : nat) (st0 : St) (m : list (bool * gop)) : str :=
+    match run_tagged st0 m [] [] with
+    | (st, oa, ob) => let (_, p) := probe st keys in oa ++ ["|"%char] ++ ob ++ ["|"%char; p]
+    end.
+  Definition after_setup (setup : list gop) : St :=
+    fold_left (fun st o => fst (step st o)) setup (m_init mc).
 End Drive.
 
+(* all order-preserving merges of the two clients' operation lists *)
+Fixpoint merges {X} (a b : list X) : list (list (bool * X)) :=
+  match a with
+  | [] => [map (fun y => (false, y)) b]
+  | x :: a' =>
+      (fix inner (b : list X) : list (list (bool * X)) :=
+         match b with
+         | [] => [map (fun z => (true, z)) (x :: a')]
+         | y :: b' => map (cons (true, x)) (merges a' b) ++ map (cons (false, y)) (inner b')
+         end) b
+  end.
+
+(* sorted, duplicate-free list of strings (Python: sorted(set(...)) on ASCII strings) *)
+Fixpoint str_leb (a b : str) : bool :=
+  match a, b with
+  | [], _ => true
+  | _, [] => false
+  | x :: a', y :: b' =>
+      let nx := nat_of_ascii x in
+      let ny := nat_of_ascii y in
+      if nx <? ny then true else if ny <? nx then false else str_leb a' b'
+  end.
+Fixpoint ins_str (x : str) (l : list str) : list str :=
+  match l with
+  | [] => [x]
+  | y :: t => if str_eqb x y then l else if str_leb x y then x :: l else y :: ins_str x t
+  end.
+Definition sort_set (l : list str) : list str := fold_right ins_str [] l.
+
+Definition conc_outcomes (mc : machine) (keys : nat) (setup a b : list gop) : list str :=
+  sort_set (map (outcome mc keys (after_setup mc setup)) (merges a b)).
+
 Definition case_cfg (c : case) : cfg :=
-  match c with CSeq k _ => k | CTree k _ _ _ _ _ => k end.
+  match c with CSeq k _ => k | CTree k _ _ _ _ _ => k | CConc k _ _ _ _ => k end.
+
+Definition obs_of (mc : machine) (c : case) : sx :=
+  match c with
+  | CConc _ keys setup a b => SL (map SS (conc_outcomes mc keys setup a b))
+  | _ => SS (drive mc c)
+  end.
 
 Definition run (c : case) : sx :=
   match model_machine (case_cfg c) with
   | Err e => SErr e
-  | Ok mc => SS (drive mc c)
+  | Ok mc => obs_of mc c
   end.
 
 (* ---------- the executable statement ---------- *)
 (* For configurations in scope: no operation raised, and every output is the one the abstract
    specification gives (bounded map with recency / score / creation order). *)
+Definition clean (x : str) : bool := forallb (fun a => negb (err_char a)) x.
+
 Definition spec_ok (c : case) (o : sx) : bool :=
   if negb (in_scope (case_cfg c)) then true
-  else match o with
-       | SS x => forallb (fun a => negb (err_char a)) x && str_eqb x (drive (spec_machine (case_cfg c)) c)
-       | _ => false
+  else match c, o with
+       | CConc _ keys setup a b, SL l =>
+           (* every outcome of every schedule is the outcome of SOME sequential order of the operations on the
+              abstract specification (each client's own order kept), and nothing raised *)
+           let lin := conc_outcomes (spec_machine (case_cfg c)) keys setup a b in
+           negb (match l with [] => true | _ => false end)
+           && forallb (fun y => match y with
+                                | SS x => clean x && existsb (str_eqb x) lin
+                                | _ => false
+                                end) l
+       | CConc _ _ _ _ _, _ => false
+       | _, SS x => clean x && str_eqb x (drive (spec_machine (case_cfg c)) c)
+       | _, _ => false
        end.
